@@ -380,7 +380,7 @@ class CxxParser:
         svalue = self._preprocessor_split_re.split(value, 1)
         if len(svalue) == 2:
             self.state.location = tok.location
-            self.visitor.on_include(self.state, svalue[1])
+            self.visitor.on_include(self.state, svalue[1].rstrip())
         else:
             raise CxxParseError("incomplete #include directive", tok)
 
